@@ -47,6 +47,7 @@ extern OPDEF ops_basic[];
 extern OPDEF ops_tree[];
 extern OPDEF ops_graph[];
 extern OPDEF ops_sepa[];
+extern OPDEF ops_rel[];
 
 /* set by an op when it detected that an input object was modified by the library */
 extern __thread int h_input_modified;
